@@ -164,6 +164,11 @@ def obligations(tier):
         cls = H.CLASSES[rep]
         fqn = f'{cls.__module__}.{cls.__qualname__}'
         unsupported = H.unsupported_members(rep)
+        if unsupported:
+            # never silently skipped: the class is listed as inconclusive (its other members are still analysed below)
+            obs.append(Ob(f'C05.class.{rep}.unsupported_members', 'checks.C05', 'ob_unsupported', kind='py', timeout=30,
+                          params={'cls': rep, 'members': unsupported}, bounds='-',
+                          claim='every member of the class is of a kind the harness can generate values for'))
         total = sum(H.plan_paths(rep, budget, quick))
         nparts = max(1, -(-total // (QUICK_PATHS if quick else THOROUGH_PATHS)))
         nparts = min(nparts, len(H.get_plan(rep, budget, quick)))
@@ -188,6 +193,11 @@ def obligations(tier):
     if only:
         obs = [o for o in obs if only in o.id]
     return obs
+
+
+def ob_unsupported(ctx):
+    return {'verdict': 'inconclusive', 'reach': True, 'engine': 'introspection',
+            'reason': f'members of {ctx.params["cls"]} use a descriptor kind the harness cannot generate values for: {ctx.params["members"]}'}
 
 
 def ob_fidelity_failed(ctx):
